@@ -213,6 +213,12 @@ def config_stream(rng, thorough):
         special.append(dict(est=e, gp=None, lm="m=n", kernel="Matern52", rank="default"))
         special.append(dict(est=e, gp="full_nystroem", lm="m=n", kernel="Matern52", rank=0.9))
         special.append(dict(est=e, gp=None, lm="clusters5", kernel="ExpQuad", rank=0.99))
+        # other optimisers, and predictors built with uncertainty: the in-sample identity and the normalisation are the
+        # same statements (the noise factor stored for the uncertainty must not enter the mean)
+        special.append(dict(est=e, gp="full_nystroem", lm="none", kernel="Matern52", rank=0.9, opt="advi", unc=True))
+        special.append(dict(est=e, gp="full", lm="none", kernel="ExpQuad", rank="default", opt="advi", unc=True))
+        special.append(dict(est=e, gp="sparse_cholesky", lm="m<n", kernel="Matern52", rank="default", opt="advi", unc=True))
+        special.append(dict(est=e, gp="sparse_nystroem", lm="m<n", kernel="Matern52", rank=0.9, opt="adam", unc=False))
     if thorough:
         rng.shuffle(full)
         return special + full
@@ -272,6 +278,8 @@ def build_case(c, r):
         kw["n_landmarks"] = max(3, n // 4)
     if c["est"] == "DimensionalityEstimator":
         kw["k"] = 5
+    if c.get("opt"):
+        kw.update(optimizer=c["opt"], n_iter=12, predictor_with_uncertainty=bool(c.get("unc")))
     normalize = None
     if time:
         normalize = [None, True, [10, 30], {0.0: 12, 1.0: 20}][int(r.integers(0, 4))]
@@ -429,6 +437,7 @@ def run(ctx):
         x, lm, kw, normalize = build_case(c, r)
         cls = getattr(mellon, c["est"])
         desc = dict(estimator=c["est"], gp_type=c["gp"], landmarks=c["lm"], kernel=c["kernel"], rank=repr(kw.get("rank", "default")),
+                    optimizer=c.get("opt", "L-BFGS-B"), predictor_with_uncertainty=bool(c.get("unc")),
                     n=int(x.shape[0]), d=int(x.shape[1]), m=None if lm is None else int(lm.shape[0]),
                     normalize_per_time_point=repr(normalize), data_seed=ci, verif_seed=ctx.seed,
                     x=x.tolist(), landmarks_array=None if lm is None else lm.tolist())
